@@ -681,8 +681,8 @@ func init() {
 		Impl: depImpl, Readable: depReadable, TrustedBase: tb,
 	})
 	core.Register(&core.Property{
-		ID: "C06", PropsModule: "GoDebian.Props.C06", TieModule: "GoDebian.Tie.Dependency",
-		Facts: []string{"fingerprint:dependency.Arch.Is", "fingerprint:dependency.Arch.IsWildcard", "fingerprint:dependency.ArchSet.Matches",
+		ID: "C06", PropsModule: "GoDebian.Props.C06", TieModule: "GoDebian.Tie.Dependency, GoDebian.Tie.ArchFns",
+		Facts: []string{"dependency.Arch.Is:translated", "fingerprint:dependency.Arch.Is", "fingerprint:dependency.Arch.IsWildcard", "fingerprint:dependency.ArchSet.Matches",
 			"fingerprint:dependency.Dependency.GetPossibilities", "fingerprint:dependency.Dependency.GetAllPossibilities",
 			"fingerprint:dependency.Dependency.GetSubstvars", "fingerprint:dependency.VersionRelation.SatisfiedBy", "dependency.SatisfiedBy:cases", "dependency.SatisfiedBy:returns"},
 		Streams: []core.Stream{{Name: "archsem", Gen: streamArchsem,
